@@ -18,11 +18,13 @@ use wirm::{Component, Module};
 pub struct BodyGen {
     pub wat: Vec<String>,
     pub results_i32: bool,
+    /// bodies may contain `try_table` constructs
+    pub try_table: bool,
 }
 
 pub fn gen_stmts(r: &mut Rng, g: &mut BodyGen, labels: usize, depth: usize, n: usize) {
     for _ in 0..n {
-        let k = r.weighted(&[2, 3, 1, if depth < 3 { 3 } else { 0 }, if depth < 3 { 1 } else { 0 }, if depth < 3 { 3 } else { 0 }, 2, 2, 1, 1, 1]);
+        let k = r.weighted(&[2, 3, 1, if depth < 3 { 3 } else { 0 }, if depth < 3 { 1 } else { 0 }, if depth < 3 { 3 } else { 0 }, 2, 2, 1, 1, 1, if depth < 3 && g.try_table { 1 } else { 0 }]);
         let fn_label = |d: usize| d + 1 == labels;
         match k {
             0 => g.wat.push("nop".into()),
@@ -91,6 +93,14 @@ pub fn gen_stmts(r: &mut Rng, g: &mut BodyGen, labels: usize, depth: usize, n: u
                 }
                 g.wat.push("return".into());
             }
+            11 => {
+                // a construct that nests (its `end` closes it, it is a branch target) and takes no special mode: `try_table`
+                // without handlers
+                g.wat.push("try_table".into());
+                let m = r.below(3);
+                gen_stmts(r, g, labels + 1, depth + 1, m);
+                g.wat.push("end".into());
+            }
             _ => g.wat.push("unreachable".into()),
         }
     }
@@ -112,7 +122,7 @@ fn is_block_style(t: &str) -> bool {
 }
 fn is_structural(t: &str) -> bool {
     let h = t.split(':').next().unwrap();
-    matches!(h, "block" | "loop" | "if" | "else" | "end")
+    matches!(h, "block" | "loop" | "if" | "else" | "end" | "try_table")
 }
 fn is_branch(t: &str) -> bool {
     let h = t.split(':').next().unwrap();
@@ -303,11 +313,12 @@ pub fn gen_plan(r: &mut Rng, toks: &[String], allow_special: bool, next_probe: &
             for i in (0..x).rev() {
                 match toks[i].split(':').next().unwrap() {
                     "end" => skip += 1,
-                    "block" | "loop" | "if" => {
+                    "block" | "loop" | "if" | "try_table" => {
                         if skip > 0 {
                             skip -= 1;
                         } else {
-                            owner = Some(i);
+                            // a `try_table` takes no special mode
+                            owner = if toks[i] == "try_table" { None } else { Some(i) };
                             break;
                         }
                     }
@@ -350,6 +361,13 @@ pub fn gen_plan(r: &mut Rng, toks: &[String], allow_special: bool, next_probe: &
             plan.push(Step::At { idx: x, mode: 4, probes: p });
         }
     }
+    // a `try_table` takes no special mode: the crate rejects the call (checked on its own in `try_table_special_modes`), and
+    // the model represents the construct as a plain nesting one, so no plan asks for it
+    plan.retain(|s| match s {
+        Step::At { idx, mode, .. } | Step::InjectAt { idx, mode, .. } | Step::AddAt { idx, mode, .. } => !(*mode >= 3 && toks[*idx] == "try_table"),
+        Step::EmptyBlockAlt { idx } => toks[*idx] != "try_table",
+        _ => true,
+    });
     plan
 }
 
@@ -361,7 +379,7 @@ pub fn branch_target(toks: &[String], b: usize) -> Option<usize> {
         let h = toks[i].split(':').next().unwrap();
         match h {
             "end" => skip += 1,
-            "block" | "loop" | "if" => {
+            "block" | "loop" | "if" | "try_table" => {
                 if skip > 0 {
                     skip -= 1;
                 } else if count == 0 {
@@ -577,6 +595,8 @@ pub struct Lowered {
     pub undecodable: Option<String>,
     /// did a second `encode()` (no edits in between) give the same bytes?
     pub second_same: Option<bool>,
+    /// the target function's body as the second `encode()` wrote it
+    pub second_toks: Option<Vec<String>>,
 }
 
 /// instrument function `target` of the module text through `path`, encode, decode the body
@@ -623,8 +643,10 @@ pub fn instrument(wat: &str, target: usize, nimp: usize, path: &str, plan: &[Ste
     plan_ops.extend(ops_cell.borrow().iter().cloned());
     let mut undecodable = None;
     let mut second_same = None;
+    let mut second_toks = None;
     let out = out.and_then(|(b, special, b2)| {
         second_same = Some(b == b2);
+        second_toks = body_toks(&b2, target).ok().map(|x| x.0);
         Ok((b, special))
     });
     let out = out.and_then(|(b, special)| match body_toks(&b, target) {
@@ -634,7 +656,7 @@ pub fn instrument(wat: &str, target: usize, nimp: usize, path: &str, plan: &[Ste
             Err(e)
         }
     });
-    Lowered { plan_ops, out, undecodable, second_same }
+    Lowered { plan_ops, out, undecodable, second_same, second_toks }
 }
 
 // ---------------------------------------------------------------- oracles
@@ -644,7 +666,7 @@ pub fn match_end(toks: &[String], i: usize) -> Option<usize> {
     for (k, t) in toks.iter().enumerate().skip(i + 1) {
         let h = t.split(':').next().unwrap();
         match h {
-            "block" | "loop" | "if" => depth += 1,
+            "block" | "loop" | "if" | "try_table" => depth += 1,
             "end" => {
                 if depth == 0 {
                     return Some(k);
@@ -662,7 +684,7 @@ pub fn branch_reaches_function_label(toks: &[String], i: usize) -> bool {
     let mut depth = 0usize; // number of enclosing block-likes
     for t in &toks[..i] {
         match t.split(':').next().unwrap() {
-            "block" | "loop" | "if" => depth += 1,
+            "block" | "loop" | "if" | "try_table" => depth += 1,
             "end" => depth = depth.saturating_sub(1),
             _ => {}
         }
@@ -684,7 +706,7 @@ pub fn opener(toks: &[String], i: usize, depth: usize) -> Option<usize> {
         k -= 1;
         match toks[k].split(':').next().unwrap() {
             "end" => need += 1,
-            "block" | "loop" | "if" => {
+            "block" | "loop" | "if" | "try_table" => {
                 if need == 0 {
                     return Some(k);
                 }
@@ -763,6 +785,35 @@ fn spec_c15(toks: &[String], plan: &[Step]) -> Vec<String> {
     out
 }
 
+/// C22 on the one nesting construct that takes no special mode today: a special-mode injection on a `try_table` is either rejected
+/// at the call or, if a version of the crate accepts it, present in the encoded function
+fn try_table_special_modes(ctx: &mut Ctx) {
+    let bytes = wat::parse_str("(module (func block try_table nop end end))").expect("wat");
+    for mode in 3..7usize {
+        let res = guarded(|| {
+            let mut m = Module::parse(&bytes, false).expect("parse");
+            {
+                let mut fm = m.functions.get_fn_modifier(FunctionID(0)).expect("modifier");
+                fm.set_instrument_mode_at(im(mode), Location::Module { func_idx: FunctionID(0), instr_idx: 1 });
+                fm.inject(Operator::I32Const { value: 424242 });
+                fm.inject(Operator::Drop);
+            }
+            m.encode()
+        });
+        match res {
+            Err(_) => ctx.count("try_table:special-mode-rejected-at-call"),
+            Ok(out) => {
+                let kept = body_toks(&out, 0).map(|(t, _)| t.iter().any(|x| x == "i32.const:424242")).unwrap_or(false);
+                if kept {
+                    ctx.count("try_table:special-mode-accepted-and-emitted");
+                } else {
+                    ctx.fail("lower", 0, "C22", &format!("{}-on-try_table-accepted-and-lost", MODES[mode].0), "a special-mode injection on `try_table` was accepted at the call and is not in the encoded function");
+                }
+            }
+        }
+    }
+}
+
 pub fn run(ctx: &mut Ctx) {
     let fam = "lower";
     for case in 0..ctx.n {
@@ -771,7 +822,14 @@ pub fn run(ctx: &mut Ctx) {
         }
         let mut r = Rng::new(ctx.seed, fam, case);
         let results_i32 = r.chance(1, 4);
-        let mut g = BodyGen { wat: vec![], results_i32 };
+        // one body in five may contain `try_table` constructs (chosen by the case number: the other bodies stay what they were)
+        let mut g = BodyGen { wat: vec![], results_i32, try_table: case % 5 == 3 };
+        if g.try_table {
+            ctx.count("body-may-contain-try_table");
+        }
+        if case == 0 {
+            try_table_special_modes(ctx);
+        }
         let n0 = r.range(1, 5);
         gen_stmts(&mut r, &mut g, 1, 0, n0);
         if results_i32 {
@@ -983,6 +1041,14 @@ pub fn run(ctx: &mut Ctx) {
                                 if !out.contains(&format!("i32.const:{p}")) {
                                     fails.push(("C17,C22", format!("func_{}-{}-lost", if *exit { "exit" } else { "entry" }, path), format!("probe {p} is not in the output")));
                                 }
+                                // C17 on the module a second `encode()` writes: the function-level code is there as often as in the first
+                                if let Some(t2) = &lowered.second_toks {
+                                    let t = format!("i32.const:{p}");
+                                    let (n1, n2) = (out.iter().filter(|x| **x == t).count(), t2.iter().filter(|x| **x == t).count());
+                                    if n1 != n2 {
+                                        fails.push(("C17", format!("func_{}-code-{}-times-in-second-encode", if *exit { "exit" } else { "entry" }, if n2 > n1 { "more" } else { "fewer" }), format!("probe {p}: {n1} in the first output, {n2} in the second")));
+                                    }
+                                }
                             }
                         }
                     }
@@ -994,6 +1060,96 @@ pub fn run(ctx: &mut Ctx) {
                                 for p in probes {
                                     if out.contains(&format!("i32.const:{p}")) {
                                         fails.push(("C21".into(), "block_alt-code-emitted-after-empty_block_alt".into(), format!("probe {p} recorded at {idx} ({}) before empty_block_alt", toks[*idx])));
+                                    }
+                                }
+                            }
+                        }
+                    }
+                    // C18 / C19 / C20 on constructs: *where* a block-level probe stands, judged by the construct that encloses it in the
+                    // output. Only for plans that leave the structural skeleton of the body as it is: no block alternates, no function-level
+                    // code (the exit wrapper is a block), no semantic-after on branches (flag checks are `if`s), no alternates on structural tokens.
+                    let skeleton_kept = !plan.iter().any(|s| match s {
+                        Step::Func { .. } | Step::EmptyBlockAlt { .. } => true,
+                        Step::EmptyAlt { idx } => is_structural(&toks[*idx]),
+                        Step::At { idx, mode, .. } | Step::InjectAt { idx, mode, .. } | Step::AddAt { idx, mode, .. } => {
+                            *mode == 6 || (*mode == 3 && is_branch(&toks[*idx])) || (*mode == 2 && is_structural(&toks[*idx]))
+                        }
+                        _ => false,
+                    });
+                    let skel = |v: &[String]| -> Vec<(usize, String)> {
+                        v.iter().enumerate().filter(|(_, t)| is_structural(t)).map(|(i, t)| (i, t.split(':').next().unwrap().to_string())).collect()
+                    };
+                    let (sk_in, sk_out) = (skel(&toks), skel(&out));
+                    if skeleton_kept && sk_in.iter().map(|x| &x.1).eq(sk_out.iter().map(|x| &x.1)) {
+                        // (ordinal of the enclosing opener among the structural tokens, None = the function body; in the else-arm?)
+                        let enclosing = |v: &[String], sk: &[(usize, String)], q: usize| -> (Option<usize>, bool) {
+                            let (mut skip, mut in_else) = (0usize, false);
+                            for (ord, (i, h)) in sk.iter().enumerate().rev() {
+                                if *i >= q {
+                                    continue;
+                                }
+                                let _ = v;
+                                match h.as_str() {
+                                    "end" => skip += 1,
+                                    "else" => {
+                                        if skip == 0 {
+                                            in_else = true;
+                                        }
+                                    }
+                                    _ => {
+                                        if skip > 0 {
+                                            skip -= 1;
+                                        } else {
+                                            return (Some(ord), in_else);
+                                        }
+                                    }
+                                }
+                            }
+                            (None, false)
+                        };
+                        for (pos, st) in plan.iter().enumerate() {
+                            if let Step::At { idx, mode, probes } | Step::InjectAt { idx, mode, probes } | Step::AddAt { idx, mode, probes } = st {
+                                if !(3..=5).contains(mode) || !is_block_style(&toks[*idx]) {
+                                    continue;
+                                }
+                                if plan[pos + 1..].iter().any(|x| matches!(x, Step::ClearAt { idx: j, mode: m2 } if j == idx && m2 == mode)) {
+                                    continue;
+                                }
+                                let is_else = toks[*idx] == "else";
+                                // the construct the probe belongs to: the instrumented opener, or the `if` of an instrumented `else`
+                                let (own, _) = if is_else { enclosing(&toks, &sk_in, *idx) } else { (sk_in.iter().position(|x| x.0 == *idx), false) };
+                                let own_pos = own.map(|o| sk_in[o].0);
+                                let want: (Option<usize>, Option<bool>) = match *mode {
+                                    // entry and exit code stand inside the body / arm they belong to
+                                    4 | 5 => (own, if is_else { Some(true) } else if toks[*idx].starts_with("if") { Some(false) } else { None }),
+                                    // semantic-after code stands behind the construct's `end`: in whatever encloses the construct
+                                    _ => (own_pos.and_then(|o| enclosing(&toks, &sk_in, o).0), None),
+                                };
+                                let want_arm_of_parent = if *mode == 3 { own_pos.map(|o| enclosing(&toks, &sk_in, o).1) } else { None };
+                                for p in probes {
+                                    let t = format!("i32.const:{p}");
+                                    // the same body injected elsewhere as well (plain `after` code of this opener, another step): positions are not unique
+                                    if plan.iter().enumerate().any(|(q, x)| q != pos && matches!(x, Step::At { probes: ps, .. } | Step::InjectAt { probes: ps, .. } | Step::AddAt { probes: ps, .. } if ps.contains(p))) {
+                                        continue;
+                                    }
+                                    for q in (0..out.len()).filter(|q| out[*q] == t) {
+                                        let (got, got_else) = enclosing(&out, &sk_out, q);
+                                        let arm_ok = match (want.1, want_arm_of_parent) {
+                                            (Some(a), _) => a == got_else,
+                                            (None, Some(a)) => got.is_none() || a == got_else,
+                                            _ => true,
+                                        };
+                                        if got != want.0 || !arm_ok {
+                                            fails.push((
+                                                match *mode {
+                                                    3 => "C20",
+                                                    4 => "C18",
+                                                    _ => "C19",
+                                                },
+                                                format!("{}-probe-in-wrong-construct", MODES[*mode].0),
+                                                format!("probe {p} injected at {idx} ({}) stands in structural construct {:?} (else-arm: {got_else}) of the output, expected {:?}", toks[*idx], got, want.0),
+                                            ));
+                                        }
                                     }
                                 }
                             }
